@@ -110,14 +110,26 @@ pub fn read_facts_and_rules(file_name: &str) -> Result<Vec<String>, String> {
                     if line.len() > 0 {
                         match check_last_char(&line, line_number) {
                             Some(msg) => { return Err(msg); },
-                            None => { long_line += &line; },
+                            None => {
+                                // A line break separates words.
+                                if long_line.len() > 0 { long_line.push(' '); }
+                                long_line += &line;
+                            },
                         }
                         rules.push(line);
                     }
                 }
                 line_number += 1;
             }
-            separate_rules(&long_line)
+            match separate_rules(&long_line) {
+                Ok(separated) => {
+                    // The space which joins two lines is not part of a rule.
+                    let mut trimmed: Vec<String> = vec![];
+                    for rule in separated { trimmed.push(rule.trim().to_string()); }
+                    Ok(trimmed)
+                },
+                Err(msg) => { Err(msg) },
+            }
         },
         Err(msg) => {
             // Add file name to error message.
@@ -241,7 +253,7 @@ fn separate_rules(text: &str) -> Result<Vec<String>, String> {
     } // for
 
     // Check for unmatched brackets here.
-    match unmatched_bracket(&rule_str, round_depth, square_depth) {
+    match unmatched_bracket(rule_str.trim(), round_depth, square_depth) {
         None => {},
         Some(msg) => { return Err(msg); },
     }
